@@ -345,7 +345,9 @@ fn get_patirion_list_form_s3(
     let partition_list = rt.block_on(async {
         client
             .list_objects_v2()
-            .set_prefix(Some(format!("{}/{}", NUN_S3_PREFIX.to_string(), db_name)))
+            // The trailing '/' keeps the partitions of another database whose name merely starts
+            // with this one's (t and t2) out of the list
+            .set_prefix(Some(format!("{}/{}/", NUN_S3_PREFIX.to_string(), db_name)))
             .bucket(bucket)
             .send()
             .await
